@@ -64,7 +64,10 @@ def attempt_spec(run):
         code = end.get("code", 1000)
         spec["timeline"].append([t_end, ["data", rm.encode_frame(1, rm.CLOSE, struct.pack(">H", code) + end.get("reason", b"\xff\xfe"))]])
         close_args = (code, None)
-    elif kind == "eof":
+    if kind in ("server-close", "server-close-empty", "server-close-rawreason") and end.get("drop"):
+        # the server does not wait for the reply to its close frame: end of stream right behind it
+        spec["timeline"].append([t_end, ["eof"]])
+    if kind == "eof":
         spec["timeline"].append([t_end, ["eof"]])
     elif kind == "rst":
         spec["timeline"].append([t_end, ["rst"]])
@@ -99,6 +102,8 @@ def run_case(case):
         if r.get("lost_first"):
             # reconnect interval set: a first connection is lost (end of stream) before the one that ends the run
             attempts.append({"timeline": [[0.3, ["data", simpeers.frame_bytes([{"op": rm.TEXT, "p": b"first"}])]], [r["lost_first"], ["eof"]]], "default_pong": 0.01})
+        if r.get("full_close") and isinstance(a, dict):
+            a["full_close"] = True  # the server's end of stream is a close() of its socket: later client writes meet a reset
         attempts.append(a)
         expect.append(ca)
     sc = simpeers.Scenario(sched, net, attempts)
@@ -253,7 +258,7 @@ def _cls(obs, case, sched):
     runs = case["runs"]
     kinds = [r["ending"]["kind"] + (":" + r["ending"]["in"] if "in" in r["ending"] else "") for r in runs]
     obs.cls = tuple(f"end:{k}" for k in kinds) + (f"runs:{len(runs)}", f"ping:{int(bool(case.get('ping')))}", f"preempted:{min(len(sched.preempted_in), 2)}", f"preempted-in-close:{int(any(':close:' in p for p in sched.preempted_in))}",
-                                                f"traffic:{min(sum(len(r.get('traffic', [])) for r in runs), 4)}", f"reconnected:{int(any(r.get('lost_first') for r in runs))}", f"tls:{int(bool(case.get('secure')))}")
+                                                f"traffic:{min(sum(len(r.get('traffic', [])) for r in runs), 4)}", f"reconnected:{int(any(r.get('lost_first') for r in runs))}", f"tls:{int(bool(case.get('secure')))}", f"server-closes-socket:{int(any(r.get('full_close') for r in runs))}")
     obs.nt = repr((runs, case.get("ping"), case.get("choices"), sorted((case.get("preempt") or {}).items()), case.get("secure"), sorted((case.get("preempt_at") or {}).items())))
     return obs
 
@@ -275,6 +280,8 @@ def ending(draw):
     kind = draw(st.sampled_from(["server-close", "server-close", "server-close-empty", "server-close-rawreason", "eof", "rst", "protocol", "utf8", "ping-timeout", "refused", "reject",
                                  "own-close", "own-close", "own-close", "thread-close", "thread-close", "thread-close", "kbd"]))
     e = {"kind": kind, "gap": draw(st.sampled_from([0.0, 0.5, 2.0, 12.0]))}
+    if kind.startswith("server-close") and draw(st.integers(0, 3)) == 0:
+        e["drop"] = True
     if kind == "server-close":
         e["code"] = draw(st.sampled_from([1000, 1001, 1011, 3000, 4999]))
         e["reason"] = draw(st.sampled_from([b"", b"bye", "grüße".encode(), b"r" * 123]))
@@ -318,6 +325,8 @@ def cases(draw):
             r["traffic"] = draw(traffic)
         runs.append(r)
     for r in runs:
+        if draw(st.integers(0, 2)) == 0:
+            r["full_close"] = True
         if draw(st.integers(0, 5)) == 0 and r["ending"]["kind"] != "utf8":
             r["skip"] = True  # run_forever(skip_utf8_validation=True); (ill-formed text is no ending then)
         if r["ending"]["kind"] in ("server-close", "server-close-empty", "own-close", "thread-close") and draw(st.integers(0, 3)) == 0:
@@ -383,7 +392,12 @@ def close_code_cases(shard, of):
         for reason in (b"", b"r"):
             if code >= 3000 and reason and code % 7:
                 continue  # (with a reason: a sample of the private range)
-            yield {"runs": [{"traffic": [], "ending": {"kind": "server-close", "code": code, "reason": reason, "gap": 0.5}}], "secure": bool(code & 1)}
+            c = {"runs": [{"traffic": [], "ending": {"kind": "server-close", "code": code, "reason": reason, "gap": 0.5}}], "secure": bool(code & 1)}
+            if i % 3 == 1:
+                # the server closes its socket right behind the close frame: the client's reply is answered with a reset
+                c["runs"][0]["ending"]["drop"] = True
+                c["runs"][0]["full_close"] = bool(i % 2)
+            yield c
 
 
 RACE_SITES = ["_app.py:close", "_app.py:setSock", "_app.py:teardown", "_app.py:read", "_core.py:close", "_core.py:shutdown", "_core.py:connect"]
